@@ -21,7 +21,7 @@ import itertools
 
 from ..cfg import CFG, ENTRY, EXIT, header_parts
 from ..effects import FS_DELETE, FS_WRITE, USER_CALL, _open_mode
-from ..flow import Defs, Scope, arg, bool_atoms, bool_eval, cond, guards, iterations, nnf, reaching_value
+from ..flow import Defs, Scope, arg, bool_atoms, bool_eval, cond, guard_facts, guards, iterations, nnf, reaching_value
 from ..loader import FuncInfo, dotted, norm, walk_no_nested
 from ..report import Ctx
 from ..selftest import Mutant
@@ -205,7 +205,7 @@ def _existence_guarded(ctx: Ctx, fn: FuncInfo, node: ast.AST, target: str) -> bo
     cn = cfg.node_containing(node)
     if cn is None:
         return False
-    for g_ in (guards(cfg, d, cn), guards(cfg, Defs(ast.Module(body=[], type_ignores=[])), cn)):
+    for g_ in (guards(cfg, d, cn), guards(cfg, Defs(ast.Module(body=[], type_ignores=[])), cn), guard_facts(cfg, d, cn), guard_facts(cfg, Defs(ast.Module(body=[], type_ignores=[])), cn)):
         if any(t in want and pol for t, pol in g_):
             return True
         for t, pol in g_:  # conjunctions: `a and p.is_file()`
